@@ -196,7 +196,8 @@ Init == conn = [c \in Conns |-> Idle] /\ order = <<>>
 Connect(c, tr) ==
   /\ conn[c].st = "idle"
   /\ conn' = [conn EXCEPT ![c] = [@ EXCEPT !.st = "open", !.tr = tr]]
-  /\ order' = Append(order, c)
+  \* the accept order only matters to the contrast model
+  /\ order' = IF Arch = "sequential" THEN Append(order, c) ELSE order
 
 Send(c, r) ==
   /\ conn[c].st = "open" /\ RawTr(r.tr) = conn[c].tr
@@ -219,14 +220,14 @@ ServerHandle(c) ==
 ServerTimeout(c) ==
   /\ conn[c].st = "open" \/ (conn[c].st = "sent" /\ ~Complete(conn[c].req))
   /\ HasTimeout(conn[c].tr) /\ MayServe(c)
-  /\ conn' = [conn EXCEPT ![c] = [@ EXCEPT !.st = "closed"]]
+  /\ conn' = [conn EXCEPT ![c] = [@ EXCEPT !.st = "closed", !.resp = [out |-> "closed"]]]
   /\ UNCHANGED order
 
 \* the client goes away: a client with a valid request waits for its answer, the others may leave at any time
 Close(c) ==
   /\ conn[c].st \in {"open", "sent", "answered", "closed"}
   /\ (conn[c].st = "sent" /\ IsValid(DB, conn[c].req)) => FALSE
-  /\ conn' = [conn EXCEPT ![c] = [@ EXCEPT !.st = "done"]]
+  /\ conn' = [conn EXCEPT ![c] = [Idle EXCEPT !.st = "done"]]
   /\ UNCHANGED order
 
 Next ==
